@@ -614,7 +614,7 @@ func runDel(t *testing.T, s DelScenario) (r08, r14 Result) {
 						fail08("%s: reopen failed: %v", tag, err)
 						return
 					}
-				} else if err := e.st.Start(ctx); err != nil {
+				} else if err := startScoped(e.st.Start); err != nil {
 					fail08("%s: Start failed: %v", tag, err)
 					return
 				}
